@@ -614,7 +614,8 @@ Error BaseBuilder::_emit(InstId inst_id, const Operand_& o0, const Operand_& o1,
 
   if (Support::test(options, InstOptions::kReserved)) {
     if (ASMJIT_UNLIKELY(!_code)) {
-      return make_error(Error::kNotInitialized);
+      reset_state();
+      return report_error(make_error(Error::kNotInitialized));
     }
 
 #ifndef ASMJIT_NO_INTROSPECTION
